@@ -54,6 +54,7 @@ PKG = 'copulas'
 # the root finders, the dataset generators, the visualisation helpers)
 MODEL_METHODS = ['fit', 'probability_density', 'pdf', 'log_probability_density', 'cumulative_distribution',
                  'cdf', 'percent_point', 'ppf', 'partial_derivative', 'sample', 'generator',
+                 'check_marginal', 'partial_derivative_scalar',
                  # constructor arguments stay caller-owned for the whole life of the model: the harness checks
                  # `__init__` together with every other entry point of the class (one statement set)
                  '__init__']
@@ -74,7 +75,9 @@ ENTRY_EXTRA_METHODS = {'Bivariate': ['select_copula'], 'Tree': []}
 ENTRY_ONLY = {'Tree': ['fit']}                     # helper class exported by copulas.multivariate
 ENTRY_FUNCTIONS = [
     ('copulas.optimize', 'bisect'), ('copulas.optimize', 'chandrupatla'),
-    ('copulas.bivariate', 'select_copula'),
+    ('copulas.bivariate', 'select_copula'), ('copulas.bivariate', '_compute_empirical'),
+    ('copulas.bivariate', '_compute_tail'), ('copulas.bivariate', '_compute_candidates'),
+    ('copulas.bivariate.utils', 'split_matrix'),
     ('copulas.visualization', 'dist_1d'), ('copulas.visualization', 'compare_1d'),
     ('copulas.visualization', 'scatter_2d'), ('copulas.visualization', 'compare_2d'),
     ('copulas.visualization', 'scatter_3d'), ('copulas.visualization', 'compare_3d'),
